@@ -430,7 +430,8 @@ for _nm, _fx in C09.PREFIXES.items():
     _deep = 1 if _nm in C09.IN_EXPRESSION else 2
     for _M in range(_deep + 1):
         _reg_span_prefix(_nm, _fx, _M, "quick")
-    _reg_span_prefix(_nm, _fx, _deep + 1, "thorough")
+    if _nm not in C09.IN_EXPRESSION:
+        _reg_span_prefix(_nm, _fx, _deep + 1, "thorough")
 
 
 # ------------------------------------------------------------------ parser: literal radix
